@@ -13,6 +13,7 @@ pub enum CborSetType { Tagged, Untagged }
 #[verifier::external_body] pub struct WithdrawalsBuilder { _p: core::marker::PhantomData<u8> }
 #[verifier::external_body] pub struct CertificatesBuilder { _p: core::marker::PhantomData<u8> }
 #[verifier::external_body] pub struct VotingBuilder { _p: core::marker::PhantomData<u8> }
+#[verifier::external_body] pub struct VotingProposalBuilder { _p: core::marker::PhantomData<u8> }
 #[verifier::external_body] pub struct NativeScripts { _p: core::marker::PhantomData<u8> }
 pub struct TransactionBuilder {
     pub inputs: TxInputsBuilder,
@@ -22,4 +23,5 @@ pub struct TransactionBuilder {
     pub withdrawals: Option<WithdrawalsBuilder>,
     pub certs: Option<CertificatesBuilder>,
     pub voting_procedures: Option<VotingBuilder>,
+    pub voting_proposals: Option<VotingProposalBuilder>,
 }
